@@ -8,6 +8,32 @@ LEVEL_NOTE = ("Trusted base: Go compiler/runtime; the vx source transformer (str
 
 # id -> (level, technique, text, design_ref)
 CHECKS = {
+ "C01": ("fault_enumeration", "exhaustive fate-vector enumeration over two real KCP cores with a prefix oracle after every read",
+         "Every assignment of {deliver, drop, duplicate, reorder, delay past RTO} to the first K datagrams (both directions) of a transfer between two real KCP state machines, "
+         "for a grid of driving mode x stream/message x window x MTU x nodelay x write pattern, with the bytes/messages read compared against the bytes/messages accepted after every Recv.",
+         "DESIGN.md 5 C01"),
+ "C02": ("fault_enumeration", "exhaustive fate-vector and outage enumeration with a drained-before-virtual-horizon oracle",
+         "The same fate-vector space continued on a fair network until drained or a virtual horizon, plus total outages starting at every emission instant of the loss-free run for four outage lengths; "
+         "a quiescent-but-undrained state or a missed horizon is a wedge.",
+         "DESIGN.md 5 C02"),
+ "C03": ("fault_enumeration", "exhaustive pause-point x control-datagram-loss-subset enumeration on two real KCP cores",
+         "The reader pauses after every possible number of segments for four durations (below the first probe to above the probe cap) and every subset of the first N control-only datagrams after the pause is lost; "
+         "oracles: nothing lost (prefix), window discipline while stalled, transfer completes after resume.",
+         "DESIGN.md 5 C03"),
+ "C04": ("model_checking", "invariant checking after every transition of exhaustively enumerated executions of the real KCP cores",
+         "Seven window invariants (delivery queue and reorder buffer bounded by the receive window, truthful advertised window, outstanding <= send window, new segments only inside min(snd_wnd, rmt_wnd, cwnd), "
+         "no admission after a timeout loss) are evaluated after every call into either endpoint over all fate vectors of symmetric, asymmetric-window, slow-reader and application-limited configurations.",
+         "DESIGN.md 5 C04"),
+ "C12": ("exploration", "differential enumeration: every fate vector re-run under every boundary-placing offset of sn and clock",
+         "Each base execution is re-run with initial sn and clock shifted so that the 2^31 / 2^32 boundary falls at every segment index resp. every stride of the run; normalised wire traces and delivered data must be identical.",
+         "DESIGN.md 5 C12"),
+ "C17": ("model_checking", "stateless DFS over thread interleavings of the real TimedSched on a controlled scheduler, iterated preemption bound, happens-before state caching",
+         "All interleavings (preemption bound iterated 0..2/3; switches at blocking points, select ties free; early timer firing as a deviation) of 1-3 submitters with the real prepend/sched goroutines, "
+         "deadline alphabets incl. ties with timer expiry, both timer-channel semantics; oracle: each task exactly once, never early, run by the first quiescent state after its deadline, workers exit on Close.",
+         "DESIGN.md 5 C17"),
+ "C18": ("fault_enumeration", "exhaustive enumeration of a clean-path configuration grid; per-step RTO bound",
+         "Every configuration of a grid (mode x nodelay x one-way delay with 2D+interval < min RTO x windows x stream/message x length, bidirectional) is executed without faults on two real cores; every data sn must appear on the wire exactly once, and rx_rto must stay within [minrto, 60000] after every call.",
+         "DESIGN.md 5 C18"),
  "C20": ("model_checking", "explicit-state BFS to fixpoint over the real RingBuffer against a slice model",
          "All abstract states (capacity, head, length) with length <= L reachable from NewRingBuffer(0,1,8,9,16) are enumerated to fixpoint and every operation "
          "of the alphabet is applied in each, compared with a slice-backed queue incl. raw-slot zeroing; plus every head position for capacities around the 1024 growth threshold.",
